@@ -6,9 +6,9 @@ package main
 
 import (
 	"errors"
-	"math"
 	"fmt"
 	"go/types"
+	"math"
 	"strings"
 
 	"golang.org/x/tools/go/ssa"
